@@ -22,75 +22,10 @@ func checkC10(c *Ctx) {
 		"Decides the construction and placement of the two embedded documents, not JSON equality with the input nor semantic equality after flattening (go-openapi/analysis).")
 	c.Assume("encoding/json.MarshalIndent of the spec object is a faithful JSON rendering; loads.Embedded(orig, flat) takes the original first (checked against the dependency's parameter names)")
 	ev, _, gen := c.evalTemplates("")
-	info := gen.TypesInfo
+	_ = gen.TypesInfo
 
 	// ---- R1 stores
-	c.Rule("C10.R1.stores", "SwaggerJSON ⟸ generateReadableSpec(MarshalIndent(OrigSpec())), FlatSwaggerJSON ⟸ generateReadableSpec(MarshalIndent(Spec())); no other store", 2)
-	want := map[string]string{"SwaggerJSON": "OrigSpec", "FlatSwaggerJSON": "Spec"}
-	found := map[string]int{}
-	for _, fd := range load.AllFuncs(gen) {
-		fd := fd
-		check := func(field string, v ast.Expr, pos token.Pos) {
-			found[field]++
-			ok, why := false, "value is not generateReadableSpec(<json of the document>)"
-			if call, isCall := ast.Unparen(v).(*ast.CallExpr); isCall && len(call.Args) == 1 {
-				if fn := goan.Callee(info, call); fn != nil && fn.Name() == "generateReadableSpec" {
-					// argument: local assigned from json.MarshalIndent(a.SpecDoc.<X>(), …)
-					var src ast.Expr = call.Args[0]
-					if id, isId := ast.Unparen(src).(*ast.Ident); isId {
-						if vv, isVar := info.Uses[id].(*types.Var); isVar {
-							as := goan.AssignmentsTo(info, fd.Body, vv)
-							if len(as) == 1 && as[0].Rhs != nil {
-								src = as[0].Rhs
-							}
-						}
-					}
-					if mc, isMC := ast.Unparen(src).(*ast.CallExpr); isMC && len(mc.Args) >= 1 {
-						if mf := goan.Callee(info, mc); mf != nil && (goan.CalleeName(mf) == "encoding/json.MarshalIndent" || goan.CalleeName(mf) == "encoding/json.Marshal") {
-							if dc, isDC := ast.Unparen(mc.Args[0]).(*ast.CallExpr); isDC {
-								if se, isSel := dc.Fun.(*ast.SelectorExpr); isSel && goan.LastSel(se.X) == "SpecDoc" {
-									if se.Sel.Name == want[field] {
-										ok = true
-									} else {
-										why = fmt.Sprintf("%s is built from SpecDoc.%s(), expected SpecDoc.%s()", field, se.Sel.Name, want[field])
-									}
-								}
-							}
-						}
-					}
-				}
-			}
-			c.Check(ok, "C10.R1.stores", fmt.Sprintf("generator.%s › GenApp.%s", load.FuncName(fd), field), c.posOf(gen, pos), "escape(json("+want[field]+"()))", why)
-		}
-		ast.Inspect(fd.Body, func(n ast.Node) bool {
-			switch x := n.(type) {
-			case *ast.CompositeLit:
-				if goan.NamedName(info.TypeOf(x)) == "GenApp" {
-					for f := range want {
-						if v := goan.Field(x, f); v != nil {
-							check(f, v, v.Pos())
-						}
-					}
-				}
-			case *ast.AssignStmt:
-				for i, l := range x.Lhs {
-					if se, ok := ast.Unparen(l).(*ast.SelectorExpr); ok {
-						if _, tracked := want[se.Sel.Name]; tracked {
-							if sel, ok := info.Selections[se]; ok && goan.NamedName(sel.Recv()) == "GenApp" && i < len(x.Rhs) {
-								check(se.Sel.Name, x.Rhs[i], x.Pos())
-							}
-						}
-					}
-				}
-			}
-			return true
-		})
-	}
-	for f := range want {
-		if found[f] != 1 {
-			c.Bad("C10.R1.stores", "generator › stores to GenApp."+f, "", fmt.Sprintf("expected exactly one store, found %d", found[f]))
-		}
-	}
+	checkEmbeddedStores(c, "C10.R1.stores", gen)
 
 	// ---- R2 template placement
 	c.Rule("C10.R2.placement", "SwaggerJSON / FlatSwaggerJSON are emitted untransformed, only inside a Go raw string", 2)
@@ -449,4 +384,78 @@ func checkOperationCopy(c *Ctx, gen *packages.Package) {
 	})
 	c.Check(ok && found, rule, "generator.gatherOperations › opRef.Op points to a copy of the analysed operation", c.posOf(gen, fd.Pos()), "Op: &<local := *operation>",
 		"opRef.Op aliases the operation of the analysed (flattened) document: the ids the generator assigns to unnamed or clashing operations are written into the spec that is then embedded, so the embedded flat document no longer matches the input")
+}
+
+// checkEmbeddedStores: SwaggerJSON / FlatSwaggerJSON are each stored once, as
+// generateReadableSpec(json of OrigSpec() / Spec()): both documents pass the escaper
+// unconditionally and come from the matching document.
+func checkEmbeddedStores(c *Ctx, rule string, gen *packages.Package) {
+	c.Rule(rule, "SwaggerJSON ⟸ generateReadableSpec(MarshalIndent(OrigSpec())), FlatSwaggerJSON ⟸ generateReadableSpec(MarshalIndent(Spec())); no other store", 2)
+	info := gen.TypesInfo
+	want := map[string]string{"SwaggerJSON": "OrigSpec", "FlatSwaggerJSON": "Spec"}
+	found := map[string]int{}
+	for _, fd := range load.AllFuncs(gen) {
+		fd := fd
+		check := func(field string, v ast.Expr, pos token.Pos) {
+			found[field]++
+			ok, why := false, "value is not generateReadableSpec(<json of the document>)"
+			if call, isCall := ast.Unparen(v).(*ast.CallExpr); isCall && len(call.Args) == 1 {
+				if fn := goan.Callee(info, call); fn != nil && fn.Name() == "generateReadableSpec" {
+					// argument: local assigned from json.MarshalIndent(a.SpecDoc.<X>(), …)
+					var src ast.Expr = call.Args[0]
+					if id, isId := ast.Unparen(src).(*ast.Ident); isId {
+						if vv, isVar := info.Uses[id].(*types.Var); isVar {
+							as := goan.AssignmentsTo(info, fd.Body, vv)
+							if len(as) == 1 && as[0].Rhs != nil {
+								src = as[0].Rhs
+							}
+						}
+					}
+					if mc, isMC := ast.Unparen(src).(*ast.CallExpr); isMC && len(mc.Args) >= 1 {
+						if mf := goan.Callee(info, mc); mf != nil && (goan.CalleeName(mf) == "encoding/json.MarshalIndent" || goan.CalleeName(mf) == "encoding/json.Marshal") {
+							if dc, isDC := ast.Unparen(mc.Args[0]).(*ast.CallExpr); isDC {
+								if se, isSel := dc.Fun.(*ast.SelectorExpr); isSel && goan.LastSel(se.X) == "SpecDoc" {
+									if se.Sel.Name == want[field] {
+										ok = true
+									} else {
+										why = fmt.Sprintf("%s is built from SpecDoc.%s(), expected SpecDoc.%s()", field, se.Sel.Name, want[field])
+									}
+								}
+							}
+						}
+					}
+				}
+			}
+			c.Check(ok, rule, fmt.Sprintf("generator.%s › GenApp.%s", load.FuncName(fd), field), c.posOf(gen, pos), "escape(json("+want[field]+"()))", why)
+		}
+		ast.Inspect(fd.Body, func(n ast.Node) bool {
+			switch x := n.(type) {
+			case *ast.CompositeLit:
+				if goan.NamedName(info.TypeOf(x)) == "GenApp" {
+					for f := range want {
+						if v := goan.Field(x, f); v != nil {
+							check(f, v, v.Pos())
+						}
+					}
+				}
+			case *ast.AssignStmt:
+				for i, l := range x.Lhs {
+					if se, ok := ast.Unparen(l).(*ast.SelectorExpr); ok {
+						if _, tracked := want[se.Sel.Name]; tracked {
+							if sel, ok := info.Selections[se]; ok && goan.NamedName(sel.Recv()) == "GenApp" && i < len(x.Rhs) {
+								check(se.Sel.Name, x.Rhs[i], x.Pos())
+							}
+						}
+					}
+				}
+			}
+			return true
+		})
+	}
+	for f := range want {
+		if found[f] != 1 {
+			c.Bad(rule, "generator › stores to GenApp."+f, "", fmt.Sprintf("expected exactly one store, found %d", found[f]))
+		}
+	}
+
 }
